@@ -688,6 +688,15 @@ func multiInstanceDocs() [][2]string {
 		add(fmt.Sprintf("invalid-regex-types-%d", n), "TYPE @user\n  {\n"+refs+"  }\n"+decls)
 		add(fmt.Sprintf("invalid-regex-types-used-later-%d", n), decls+"TYPE @user\n  {\n"+refs+"  }\n")
 	}
+	// the same late fault (a path parameter of an object type) in 2..3 interactions: whichever
+	// collection the interactions are walked in, the first in source order is reported
+	for n := 2; n <= 3; n++ {
+		body := "TYPE @obj\n  {\n    \"a\": 1\n  }\n"
+		for i := 0; i < n; i++ {
+			body += fmt.Sprintf("GET /late%d/{id}\n  Path\n    {\n      \"id\": @obj\n    }\n  200 any\n", i)
+		}
+		add(fmt.Sprintf("late-path-faults-%d", n), body)
+	}
 	// lists with repetitions: every Tags list of length 2..4 over three declared tags that names some
 	// tag twice, at every level that takes a list (method, URL, JSON-RPC method); and the same for
 	// allOf lists and or lists of types
